@@ -2,3 +2,5 @@ import Model.Encoder
 import Model.Driver
 import Model.Dispatch
 import Model.Lines
+import Model.Helpers
+import Model.HelpersDriver
